@@ -113,6 +113,11 @@ CASES = [
     C('union_all', lambda cx: dict(xs=cx.val('xs', TSeq(TSet(TInt)))),
       good=["forall(lambda v: (v in result) == exists(lambda i: 0 <= i and i < len(xs) and v in xs[i]))"],
       bad=["forall(lambda v: (v in result) == (len(xs) > 0 and v in xs[0]))", "forall(lambda v: not (v in result))"]),
+    # a list changed while it is iterated: Python skips the element after a removed one ([2, 2, 3] -> [2, 3]), so "no even number
+    # is left" is false although it holds when the loop runs over a snapshot
+    C('drop_evens_live', lambda cx: dict(xs=cx.box('xs', IS)),
+      good=["len(result) <= len(old(xs))"], bad=["forall(lambda j: implies(0 <= j and j < len(result), result[j] % 2 == 1))"],
+      loops={'L1': LoopSpec(inv=["len(xs) <= len(old(xs))", "0 <= _i"], modifies=['xs'], live=True)}),
 ]
 # exceptions that must be seen: (case, exception) - without the raises clause the safety obligation has to fail
 MUST_RAISE = [('lookup_all', 'KeyError'), ('pop_middle', 'IndexError')]
@@ -242,6 +247,12 @@ def main():
     if r.error or not any(o['name'].startswith('frame:L1:d') and o['status'] != 'unsat' for o in r.obligations):
         failures.append('tally: a container mutated outside `modifies` was not reported (UNSOUND): %s %s'
                         % (r.error, [o['name'] for o in r.obligations]))
+    # ... and without live=True such a loop is out of reach (never verified against a snapshot)
+    case = dict([c for c in CASES if c['name'] == 'drop_evens_live'][0])
+    case['loops'] = {'L1': LoopSpec(inv=["len(xs) <= len(old(xs))"], modifies=['xs'])}
+    r = verify(contract_of(case, case['good']), [], timeout_ms=800)
+    if not (r.error and 'live=True' in r.error):
+        failures.append('drop_evens_live: a loop that changes the list it iterates was verified against a snapshot (UNSOUND): %s' % r.error)
     runs, bad = differential(random.Random(int(os.environ.get('VERIF_SEED', '0') or 0)), int(os.environ.get('SELFTEST_N', '25')))
     for name, args, want, got in bad[:10]:
         failures.append('differential %s%r: CPython %r, interpreter %r' % (name, args, want, got))
